@@ -207,4 +207,181 @@ def shardFlushCode : List ShOp :=
   [.makeDAG, .retIfErr, .putNodes, .retIfErr, .rootIsFirstNode, .mkPin, .pinName, .pinAllocsShard, .pinTypeShard,
    .ifPrevDefined, .pinRefPrev, .endIf, .depthLit, .pinShardSizeIsSize, .ifDepthGuard, .depthLit, .endIf, .retPin]
 
+/-! ### shard.go interpreted (`AddLink`, `Size`, `Limit`, `Flush` as the regenerated operation lists say) -/
+
+/-- the shard object: `dagNode` (link name → CID in insertion order; a name is the decimal of a number and is kept
+    as that number), `currentSize`, `sizeLimit` -/
+structure ShObj where
+  dagNode : List (Nat × Nat)
+  currentSize : Nat
+  sizeLimit : Nat
+  deriving DecidableEq, Repr
+
+/-- `m[k] = v` -/
+def mapSet (m : List (Nat × Nat)) (k v : Nat) : List (Nat × Nat) :=
+  if m.any (fun x => x.1 == k) then m.map (fun x => if x.1 == k then (k, v) else x) else m ++ [(k, v)]
+
+/-- the locals of one `AddLink` call -/
+structure ALSt where
+  o : ShObj
+  linkN : Option Nat
+  linkName : Option Nat
+  bad : Bool
+
+def alStep (b : Blk) (a : ALSt) (op : ShOp) : ALSt :=
+  match op with
+  | .linkIndexIsLen => { a with linkN := some a.o.dagNode.length }
+  | .linkNameDecimal =>
+    match a.linkN with
+    | some n => { a with linkName := some n }
+    | none => { a with bad := true }
+  | .storeLink =>
+    match a.linkName with
+    | some n => { a with o := { a.o with dagNode := mapSet a.o.dagNode n b.id } }
+    | none => { a with bad := true }
+  | .sizePlusBlock => { a with o := { a.o with currentSize := a.o.currentSize + b.size } }
+  | _ => { a with bad := true }
+
+/-- `(*shard).AddLink` as the program says (`none`: a statement that is not recognised, or a local used before it is set) -/
+def addLinkF (ops : List ShOp) (o : ShObj) (b : Blk) : Option ShObj :=
+  let a := ops.foldl (alStep b) ⟨o, none, none, false⟩
+  if a.bad then none else some a.o
+
+def addLinksF (ops : List ShOp) : ShObj → List Blk → Option ShObj
+  | o, [] => some o
+  | o, b :: bs =>
+    match addLinkF ops o b with
+    | some o1 => addLinksF ops o1 bs
+    | none => none
+
+/-- `Size()` / `Limit()` as the programs say -/
+def sizeF : List ShOp → ShObj → Option Nat
+  | [.retCurrentSize], o => some o.currentSize
+  | [.retSizeLimit], o => some o.sizeLimit
+  | _, _ => none
+def limitF : List ShOp → ShObj → Option Nat := sizeF
+
+/-- `ingestBlock`'s test with the interpreted getters: `shard.Size()+size < shard.Limit()` (operator from `Gen.fitStrict`) -/
+def fitsF (sizeOps limitOps : List ShOp) (o : ShObj) (size : Nat) : Option Bool :=
+  match sizeF sizeOps o, limitF limitOps o with
+  | some cur, some lim => some (if Gen.fitStrict then decide (cur + size < lim) else decide (cur + size ≤ lim))
+  | _, _ => none
+
+def numbered : Nat → List Nat → List (Nat × Nat)
+  | _, [] => []
+  | i, x :: xs => (i, x) :: numbered (i + 1) xs
+
+/-- the shard object the hand-written bookkeeping `Cur` stands for (limit `lim`) -/
+def objOf (lim : Nat) (k : Cur) : ShObj := ⟨numbered 0 (k.blocks.map (·.id)), k.size, lim⟩
+
+/-- what `Flush` reads besides the object -/
+structure FlIn where
+  allocs : List Nat
+  shardN : Nat
+  prev : Option Nat
+
+structure FlSt where
+  env : Env
+  dests : List Nat
+  nodes : Option (List Node)
+  err : Bool
+  root : Option Nat
+  draft : Option Pin
+  skip : Bool                  -- inside an `if` whose condition is false
+  inIf : Option Bool           -- an `if` is open (`some true`: the depth guard)
+  ret : Option Status
+
+def flStep (sizeOps : List ShOp) (c : Cfg) (o : ShObj) (i : FlIn) (a : FlSt) (op : ShOp) : FlSt :=
+  match a.ret with
+  | some _ => a
+  | none =>
+    match op with
+    | .endIf =>
+      match a.inIf with
+      | some _ => { a with inIf := none, skip := false }
+      | none => { a with ret := some .panic }
+    | .ifPrevDefined =>
+      match a.inIf with
+      | none => { a with inIf := some false, skip := i.prev.isNone }
+      | some _ => { a with ret := some .panic }
+    | .ifDepthGuard =>
+      match a.inIf, a.nodes with
+      | none, some ns => { a with inIf := some true, skip := !indirectGuard ns.length o.dagNode.length }
+      | _, _ => { a with ret := some .panic }
+    | op =>
+      if a.skip then a else
+      match op with
+      | .makeDAG => { a with nodes := some (makeDAG a.env.named (o.dagNode.map (·.2))), err := false }
+      | .retIfErr => if a.err then { a with ret := some .fail } else a
+      | .putNodes =>
+        match a.nodes with
+        | some ns =>
+          match putMany c a.env a.dests ns with
+          | (e, d, ok) => { a with env := e, dests := d, err := !ok }
+        | none => { a with ret := some .panic }
+      | .rootIsFirstNode =>
+        match a.nodes with
+        | some ns => { a with root := some (rootOf ns) }
+        | none => { a with ret := some .panic }
+      | .mkPin =>
+        match a.root with
+        | some r => { a with draft := some (pinWithOpts r (workOpts c)) }
+        | none => { a with ret := some .panic }
+      | .pinName =>
+        match a.draft with
+        | some p => { a with draft := some { p with opts := { p.opts with name := shardName (workOpts c).name i.shardN } } }
+        | none => { a with ret := some .panic }
+      | .pinAllocsShard =>
+        match a.draft with
+        | some p => { a with draft := some { p with allocs := i.allocs } }
+        | none => { a with ret := some .panic }
+      | .pinTypeShard =>
+        match a.draft with
+        | some p => { a with draft := some { p with type := .shardT } }
+        | none => { a with ret := some .panic }
+      | .pinRefPrev =>
+        match a.draft with
+        | some p => { a with draft := some { p with ref := some (i.prev.getD 0) } }
+        | none => { a with ret := some .panic }
+      | .depthLit =>
+        match a.draft with
+        | some p => { a with draft := some { p with depth := if a.inIf == some true then Gen.depthIndirect else Gen.depthDirect } }
+        | none => { a with ret := some .panic }
+      | .pinShardSizeIsSize =>
+        match a.draft, sizeF sizeOps o with
+        | some p, some n => { a with draft := some { p with opts := { p.opts with shard := n } } }
+        | _, _ => { a with ret := some .panic }
+      | .retPin =>
+        match a.draft with
+        | some p =>
+          match pinCall c a.env p with
+          | (e, true) => { a with env := e, ret := some .ok }
+          | (e, false) => { a with env := e, ret := some .fail }
+        | none => { a with ret := some .panic }
+      | _ => { a with ret := some .panic }
+
+/-- `(*shard).Flush` as the program says: the cluster side afterwards, the BlockAdder's destinations left, the outcome
+    (`none`: unrecognised statement / no return reached) -/
+def flushF (ops sizeOps : List ShOp) (c : Cfg) (e : Env) (dests : List Nat) (o : ShObj) (i : FlIn) : Option (Env × List Nat × Status) :=
+  let a := ops.foldl (flStep sizeOps c o i) ⟨e, dests, none, false, none, none, false, none, none⟩
+  match a.ret with
+  | some .panic => none
+  | some st => some (a.env, a.dests, st)
+  | none => none
+
+/-- the part of the hand-written `flush` that is `shard.Flush` (without the bookkeeping of `flushCurrentShard`) -/
+def flushCore (c : Cfg) (s : ShSt) (k : Cur) : Env × List Nat × Status :=
+  match putMany c s.env k.dests (flushNodes s k) with
+  | (e1, d1, false) => (e1, d1, .fail)
+  | (e1, d1, true) =>
+    match pinCall c e1 (flushPin c s k) with
+    | (e2, false) => (e2, d1, .fail)
+    | (e2, true) => (e2, d1, .ok)
+
+/-! programs a plausible edit of shard.go would give -/
+/-- `sh.currentSize += s` dropped: the size is not accumulated -/
+def noSizeAccum : List ShOp := [.linkIndexIsLen, .linkNameDecimal, .storeLink]
+/-- `pin.Allocations = sh.allocations` dropped from `Flush` -/
+def flushNoAllocs : List ShOp := shardFlushCode.filter (· != .pinAllocsShard)
+
 end CV.C13.Flow
